@@ -6,11 +6,17 @@ C01 driver: stateful line protocol around Model/Timeline.lean.
   all cls a b incl mode | prev t cls eq incl | next t cls eq incl | first | last | gp t | qds a b
   sweep a b n                   iter_all for every cls (None if n, 0..numClasses-1) × include_subclasses × mode
   inv                           `1` iff the (decidable) invariant holds of the current model state
+  winv                          `1` iff the weak invariant of ALL histories holds of the current model state
+  qmap <n x1 … xn>              quarter_duration_map on rational times (scalar / list / array argument)
+  np ss <n a…> key | np ins <n a…> i x | np del <n a…> i
+                                numpy's binary search / insert / delete as modelled algorithms (stateless)
+  npstate t                     bsearch vs the model's prefix count on the current point times and quarter times
 
-Every answer except `inv` is `<result>;<full canonical dump of the state>`.
+Every answer except `inv`, `winv`, `np …` is `<result>;<full canonical dump of the state>`.
 -/
 import PartituraModel.Wire
 import PartituraModel.Model.Timeline
+import PartituraModel.Model.TimelineExt
 
 open Wire TL
 
@@ -115,6 +121,31 @@ def handle (d : DState) (ts : List String) : DState × String :=
       (d', "ok;" ++ dump d')
     | none => (d, "bad-request")
   | ["inv"] => (d, fmtBool (invB d.part))
+  | ["winv"] => (d, fmtBool (winvB d.part))
+  | "qmap" :: rest =>
+    match run (list rat) rest with
+    | some xs => (d, "qmap:" ++ fmtList (fmtOpt fmtNat) (quarterMap d.part xs) ++ ";" ++ dump d)
+    | none => (d, "bad-request")
+  | "np" :: "ss" :: rest =>
+    match run (do let a ← list int; let k ← int; pure (a, k)) rest with
+    | some (a, k) => (d, "np:" ++ fmtNat (bsearch a k))
+    | none => (d, "bad-request")
+  | "np" :: "ins" :: rest =>
+    match run (do let a ← list int; let i ← nat; let x ← int; pure (a, i, x)) rest with
+    | some (a, i, x) => (d, "np:" ++ fmtOpt (fmtList fmtInt) (npInsert a i x))
+    | none => (d, "bad-request")
+  | "np" :: "del" :: rest =>
+    match run (do let a ← list int; let i ← nat; pure (a, i)) rest with
+    | some (a, i) => (d, "np:" ++ fmtOpt (fmtList fmtInt) (npDelete a i))
+    | none => (d, "bad-request")
+  | "npstate" :: rest =>
+    match run int rest with
+    | some t =>
+      let ts := d.part.points.map (·.t)
+      let qs := d.part.qtab.map (·.1)
+      (d, "np:" ++ fmtTuple [fmtNat (bsearch ts t), fmtNat (searchsorted ts t), fmtNat (bsearch qs t),
+        fmtNat (searchsorted qs t)])
+    | none => (d, "bad-request")
   | "sweep" :: rest =>
     match run (do let a ← opt int; let b ← opt int; let n ← bool; pure (a, b, n)) rest with
     | some (a, b, n) => (d, sweep d.part a b n ++ ";" ++ dump d)
